@@ -556,7 +556,7 @@ func init() {
 	})
 	explore.Register(&explore.Property{
 		ID: "C06", Level: "exploration",
-		Rule: "B1: every string of <= 3 (thorough: 4) symbols over a 48-symbol alphabet (all scanner-relevant bytes, quotes, digits, letters, blanks, NUL, 2- and 3-byte UTF-8, lone continuation byte, 0xFF); B2: every sequence of <= 4 (thorough: 5-6) tokens over 31 tokens joined with and without blanks; for each string Compile, CompileWithNS(nil,{},{a:u}) and MustCompile run under recover: no panic escapes, exactly one of (expr, error), MustCompile non-nil, an accepted expression reports its text and can be handed to Select. NSmap: CompileWithNS with every one-binding map whose prefix is a string of <= 2 (thorough: 3) alphabet symbols x 6 expressions. Calls: every function name x arity 0..4 x argument tuples, bare / in a predicate / as a step (Compile only). Nest: every repeating unit of 1-2 (thorough: 3) wrappers out of 30 recursive constructs in 7 outer contexts nested to depth 10..10^5 (thorough: 10^6, 10^7), each compiled in a child process with a 64 MiB stack cap; a stack overflow, crash or hang is a violation; non-trivial = string accepted by Compile / nesting case; distinct = distinct strings",
+		Rule: "B1: every string of <= 3 (thorough: 4) symbols over a 48-symbol alphabet (all scanner-relevant bytes, quotes, digits, letters, blanks, NUL, 2- and 3-byte UTF-8, lone continuation byte, 0xFF); B2: every sequence of <= 4 (thorough: 5-6) tokens over 31 tokens joined with and without blanks; for each string Compile, CompileWithNS(nil,{},{a:u}) and MustCompile run under recover: no panic escapes, exactly one of (expr, error), MustCompile non-nil, an accepted expression reports its text and can be handed to Select. NSmap: CompileWithNS with every one-binding map whose prefix is a string of <= 2 (thorough: 3) alphabet symbols x 6 expressions. Calls: every function name x arity 0..4 x argument tuples, bare / in a predicate / as a step (Compile only). Nest: every repeating unit of 1-2 (thorough: 3) wrappers out of 30 recursive constructs in 7 outer contexts nested to depth 10..4*10^6 (thorough: 10^7), each compiled in a child process with a 64 MiB stack cap; a stack overflow, crash or hang is a violation; non-trivial = string accepted by Compile / nesting case; distinct = distinct strings",
 		Assumptions:    []string{"bounded string length / token count / nesting depth", "an unguarded recursion needs < 64 MiB of stack per 10^5..10^6 frames to be visible"},
 		Budget:         budget(90*time.Second, 14*time.Minute),
 		MinRefOutcomes: 1,
@@ -565,7 +565,7 @@ func init() {
 				return []*explore.Space{bytesSpace(4), tokenSpace(5, false), callSpace(), nsMapSpace(3), nestSpace(1, []int{10, 25, 40, 60, 100, 150, 1000, 10000, 100000, 1000000, 10000000}),
 					nestSpace(2, []int{10, 30, 50, 1000, 100000, 1000000}), nestSpace(3, []int{20, 300, 100000})}
 			}
-			return []*explore.Space{bytesSpace(3), tokenSpace(4, true), callSpace(), nsMapSpace(2), nestSpace(1, []int{10, 25, 40, 60, 100, 150, 1000, 10000, 100000, 1000000}), nestSpace(2, []int{20, 45, 300, 100000})}
+			return []*explore.Space{bytesSpace(3), tokenSpace(4, true), callSpace(), nsMapSpace(2), nestSpace(1, []int{10, 25, 40, 60, 100, 150, 1000, 10000, 100000, 1000000, 4000000}), nestSpace(2, []int{20, 45, 300, 100000})}
 		},
 	})
 }
